@@ -338,7 +338,7 @@ class Executor(ExecResolve):
             self.oblige("inv-init", st, t, f"loop {ordinal} invariant {k} on entry: {inv}", name=f"{label}.inv{k}.init")
         # 2. discover what the body modifies
         names = sorted(self.assigned_names(stmt.body) | self.target_names(stmt.target) | set(ghosts))
-        written = self.discover_writes(stmt, st, it)
+        written, inited = self.discover_writes(stmt, st, it)
         # 3. arbitrary iteration
         def havocked(base_state, tag):
             s = base_state.fork()
@@ -361,10 +361,21 @@ class Executor(ExecResolve):
                     s.bump(key[1])
                 else:
                     self.havoc_field(s, self.key_name(key))
-            if written:
-                s.clock0 = z3.Int(w.fresh_name("clock"))
-                s.clock_off = 0
-                s.assume(s.clock0 >= base_state.clock)
+            # fields only initialised on objects allocated inside the loop: unchanged on every older object
+            for key in inited:
+                if key in written:
+                    continue
+                old = s.heap.get(key)
+                if old is None:
+                    continue
+                new = z3.Const(w.fresh_name(f"H:{self.key_name(key)}"), old.sort())
+                r = z3.Const(w.fresh_name("r"), w.Ref)
+                s.assume(z3.ForAll([r], z3.Implies(w.born(r) < base_state.clock, z3.Select(new, r) == z3.Select(old, r)),
+                                   patterns=[z3.Select(new, r)]))
+                s.heap[key] = new
+            s.clock0 = z3.Int(w.fresh_name("clock"))
+            s.clock_off = 0
+            s.assume(s.clock0 >= base_state.clock)
             for key, val in list(s.cattr.items()):
                 pass
             s.path += tag
@@ -405,10 +416,11 @@ class Executor(ExecResolve):
     def discover_writes(self, stmt, st, it):
         """run the body once on a throw-away state to learn which fields / ghost keys it may write"""
         if self.discovery:
-            return set()
+            return set(), set()
         saved = (self.obligations, self.pending, self.loop_ordinal, dict(self.call_ordinal), self.discovered,
                  set(self.trusted_used), list(self.notes), set(self.inlined))
-        self.discovery, self.discovered = True, set()
+        saved_init = self.discovered_init
+        self.discovery, self.discovered, self.discovered_init = True, set(), set()
         self.obligations, self.pending = [], []
         try:
             s = st.fork()
@@ -423,11 +435,13 @@ class Executor(ExecResolve):
                 # a second attempt is made in the real pass, which reports the error
                 pass
             found = set(self.discovered)
+            found_init = set(self.discovered_init)
         finally:
             self.discovery = False
+            self.discovered_init = saved_init
             (self.obligations, self.pending, self.loop_ordinal, self.call_ordinal, self.discovered,
              self.trusted_used, self.notes, self.inlined) = saved
-        return found
+        return found, found_init
 
     def s_While(self, stmt, st):
         raise EngineError("while loop")
